@@ -23,6 +23,8 @@ pub enum MTy {
 
 pub const F_JPANIC: u8 = 1;
 pub const F_JABORT: u8 = 2;
+/// the message's `on_tell_result` panics (only reached when the message was told, not asked)
+pub const F_TRPANIC: u8 = 4;
 
 #[derive(Clone, Debug)]
 pub struct Body {
